@@ -1,7 +1,10 @@
 from llsym.build import CORE, GMG, GEOM
 from llsym import omp
 ID = 'C12'
-SOURCES = CORE + GMG + GEOM + [('harness/C12_kernels.cpp', ['-fopenmp'], []), 'harness/C12_paths.cpp']
+SOURCES = CORE + GMG + GEOM + [('harness/C12_kernels.cpp', ['-fopenmp'], ['-fopenmp']), 'harness/C12_paths.cpp']
+# native replay: the kernels TU and the runtime are built with -fopenmp (real threads, vset_threads = omp_set_num_threads); the repository TUs stay without
+RUNTIME_FLAGS = ['-fopenmp']
+NATIVE_LINK_FLAGS = ['-fopenmp']
 FLAGS = ['-DNDEBUG']
 ASSUMPTIONS = [
     'thread-count independence is decided in exact real arithmetic ("no more than floating-point re-association"): the code path taken with omp_get_max_threads() = T in {2,3,4} equals the single-thread path, for symbolic vectors (and symbolic coefficients for the residuals); no-OpenMP build, multi-thread branch executed in program order',
